@@ -360,6 +360,48 @@ def work_perm(job):
     return acc.result()
 
 
+BESIDE = [
+    # (cells, [(address, expected flat values) ...]) -- each address is evaluated on a fresh model (no history)
+    ({'A1': 5}, [('S!A:A', [5]), ('S!1:1', [5]), ('A:A', [5]), ('S!A:B', [5, None]), ('S!C:C', [None]), ('S!3:3', [None])]),
+    ({'A1': '=1+1'}, [('S!A:A', [2]), ('S!1:1', [2]), ('S!B:B', [None])]),
+    ({'A1': 5, 'B1': '=A1+1'}, [('S!A:A', [5]), ('S!C:C', [None]), ('S!3:3', [None, None]), ('S!1:1', [5, 6])]),
+    ({'A1': 5, 'B1': '=A1+1', 'A2': '=SUM(D:D)', 'B2': '=SUM(5:5)+A1', 'A3': '=COUNT(D:E)'},
+     [('S!A2', [0]), ('S!B2', [5]), ('S!A3', [0]), ('S!D:D', [None, None, None]), ('S!5:5', [None, None]), ('S!A:A', [5, 0, 0])]),
+    ({'C3': 5}, [('S!A:A', [None, None, None]), ('S!C:C', [None, None, 5]), ('S!3:3', [None, None, 5])]),
+]
+
+
+def work_beside(job):
+    """unbounded ranges whose clip to the used area is a single cell, or which lie beside the used area (an empty
+    column or row): the elements are the values of the cells the range names within the used rows / columns -- blank
+    outside the data -- exactly as evaluate(cell) gives them; formulas over them evaluate"""
+    acc = Acc()
+    for cells, queries in BESIDE:
+        spec = {'sheets': {'S': cells}, 'active': 'S'}
+        for addr, want in queries:
+            acc.add('evaluations')
+            acc.add('states')
+            acc.add('transitions')
+            acc.add('distinct_nontrivial')
+            m = W.compile_inmem(spec)
+            case = dict(kind='beside', cells=cells, addr=addr)
+            try:
+                v = m.evaluate(addr)
+                again = m.evaluate(addr)
+            except Exception as exc:
+                acc.violation(dict(case, verdict='raised', exc=type(exc).__name__),
+                              f'workbook {cells}: evaluate({addr!r}) raised {type(exc).__name__}: {str(exc)[:120]}')
+                continue
+            flat = [x for r in v for x in (r if isinstance(r, tuple) else (r,))] if isinstance(v, tuple) else [v]
+            if len(flat) != len(want) or not all(W.veq(a, b) for a, b in zip(flat, want)):
+                acc.violation(dict(case, verdict='wrong-elements', observed=jsonable(v), expected=jsonable(want)),
+                              f'workbook {cells}: evaluate({addr!r}) = {v!r}, the cells it names hold {want!r}')
+            elif not W.veq(jsonable(v), jsonable(again)):
+                acc.violation(dict(case, verdict='not-repeatable', observed=jsonable(again), expected=jsonable(v)),
+                              f'workbook {cells}: evaluate({addr!r}) = {v!r}, repeated: {again!r}')
+    return acc.result()
+
+
 def run(ctx):
     fams = family.curated()
     jobs = []
@@ -375,6 +417,7 @@ def run(ctx):
     k = ctx.seed % len(jobs)
     ctx.pmap(work, jobs[k:] + jobs[:k], timeout=3000)
     ctx.pmap(work_perm, [(f,) for f in fams], timeout=3000)
+    ctx.pmap(work_beside, [(0,)], timeout=600)
     ctx.pmap(work_consistency, [(f, 4 if ctx.thorough else 3, 30000) for f in fams if f['ranges'] or f['unbounded']], timeout=3000)
     if ctx.thorough:
         ctx.pmap(work_perm, [(f,) for f in family.enumerated()], timeout=3000)
@@ -383,6 +426,10 @@ def run(ctx):
 
 
 def replay(case):
+    if case['kind'] == 'beside':
+        r = work_beside((0,))
+        hits = [m for c, m in r['violations'] if c.get('cells') == case['cells'] and c.get('addr') == case['addr']]
+        return bool(hits), '\n'.join(hits[:2]) or 'no violation'
     fam = case['fam']
     if case['kind'] == 'perm':
         p = P(fam, 'inmem', None)
